@@ -469,7 +469,9 @@ class _MExpr:
         if type(rhs) is _MSubspec:
             rhs = scope[glom](target, rhs.spec, scope)
         try:
-            matched = (
+            # (bool(): the last operand of the chain is returned untested, and
+            # its truth value may raise as well - an array-like result)
+            matched = bool(
                 (op == '=' and lhs == rhs) or
                 (op == '!' and lhs != rhs) or
                 (op == '>' and lhs > rhs) or
